@@ -351,6 +351,11 @@ def saveSnapshot {A : Agg} (e : Ent A) (i : Nat) (wfail : Bool := false) :=
 /-- `has` (store.rs:132-136). -/
 def has {A : Agg} (e : Ent A) : Bool := e.kv.hasCmd 0
 
+/-- `list` (store.rs:139-157): the handles of the scopes that hold an init command.  (Before
+the fix de4d2976 every scope counted, also the empty directory a failed first write leaves on
+the disk back-end; `has` and `get_latest` never did.) -/
+def listed {A : Agg} (e : Ent A) : Bool := has e
+
 /-- A new `AggregateStore` object in place of instance `i` (process restart, or the
 scheduler's throw-away store): empty cache and history cache. -/
 def restart {A : Agg} (e : Ent A) (i : Nat) : Ent A :=
